@@ -64,6 +64,9 @@ H("c02_fuse_dense", "c02_fuse::c02_fuse_dense", ["C02"],
 H("c14_valid_identifier_4", "c_scalar::c14_valid_identifier_4", ["C14", "C01", "C09"], ["process::utils::is_valid_identifier"],
   "every ASCII string of length 0..=4", mode="lean", timeout_s=600, replay="valid_identifier_4",
   assumptions=["non-ASCII strings are outside the bound (the function rejects them by an is_ascii test that is executed for ASCII inputs only)"])
+H("c14_valid_identifier_unicode", "c_scalar::c14_valid_identifier_unicode", ["C14", "C01", "C09"], ["process::utils::is_valid_identifier"],
+  "every string of 1..=3 characters below U+0800 (ASCII and two-byte UTF-8 characters, e.g. accented letters)", mode="lean", timeout_s=900,
+  replay="valid_identifier_unicode", assumptions=["characters from U+0800 are outside the bound"])
 H("c14_valid_identifier_6", "c_scalar::c14_valid_identifier_6", ["C14", "C01", "C09"], ["process::utils::is_valid_identifier"],
   "every ASCII string of length 0..=6 (covers the 6-letter reserved words `elseif`, `repeat`, `return`)", tier="thorough",
   mode="lean", timeout_s=1200, replay="valid_identifier_6")
@@ -112,7 +115,8 @@ H("c08_ev_unary", "c08_steps::c08_ev_unary", ["C08", "C01"], ["Evaluator::evalua
 # ---------------------------------------------------------------------------------------- C02 precedence
 PREC_NOTE = "reference::priority = operator priorities of lparser.c / Luau Parser.cpp; regrouping decided by precedence climbing (subexpr(limit))"
 for group, shapes in [("binary", "{leaf, x INNER y (16 inner operators), parenthese}"), ("unary", "{unary (3 operators), x INNER -y}"),
-                      ("if", "{if-expression, x INNER if-expression, unary if-expression}")]:
+                      ("if", "{if-expression, x INNER if-expression, unary if-expression}"),
+                      ("unary_binary_if", "{unary applied to `x INNER if-expression` (16 inner operators x 3 unary operators)}")]:
     H("c02_prec_left_" + group, "c02_prec::c02_prec_left_" + group, ["C02"],
       ["BinaryOperator::left_needs_parentheses", "BinaryOperator::precedes", "BinaryOperator::get_precedence", "binary::ends_with_if_expression",
        "binary::ends_with_type_cast_to_type_name_without_type_parameters"],
@@ -193,3 +197,27 @@ for shape, text in [("leaf", "a single-valued leaf (value nil/false/true/any f64
 # c06_if_chain_* (the whole process_expression fold over two elseif branches, interpreted) are written
 # in harness/src/c06_ifexpr.rs but not registered: the slice-iterator loop of `fold` is unrolled to the
 # unwind bound with convert_if_branch inlined in each copy (out of memory at 16 GB, unwind 7).
+
+# ---------------------------------------------------------------------------------------- C19
+RS_STUB = "std::hash::RandomState::new -> fixed keys (getrandom is a syscall Kani cannot run); nothing depending on hash-map iteration order is claimed"
+for kind, rule in [("plain", "remove_empty_do (no properties)"), ("property", "remove_assertions with preserve_arguments_side_effects=false")]:
+    for which, counts in [("apply", "1 apply pattern"), ("skip", "1 skip pattern"), ("both", "2 apply and 1 skip patterns"), ("many", "1 apply and 3 skip patterns"), ("none", "no patterns")]:
+        if kind == "property":
+            # rules with properties build a HashMap (hashbrown insert / SipHash): CBMC does not finish (10 min cap)
+            continue
+        H("c19_rule_ser_%s_%s" % (kind, which), "c19_config::c19_rule_ser_%s_%s" % (kind, which), ["C19"],
+          ["impl Serialize for dyn Rule", "RuleConfiguration::serialize_to_properties", "RuleConfiguration::set_metadata", "RuleConfiguration::metadata"],
+          "rule %s with %s (opaque); serialized into a recording serde Serializer (string vs object form, keys written, number of patterns written under each filter key)" % (rule, counts),
+          mode="lean", timeout_s=600, replay="rule_ser_%s_%s" % (kind, which), stubs=[RS_STUB],
+          assumptions=["values written under the keys, the deserializers and per-rule configure are outside the claim",
+                       "native replay uses real glob patterns and the same recording serializer"],
+          tier="quick" if kind == "plain" or which in ("both", "skip") else "thorough")
+
+# ---------------------------------------------------------------------------------------- C17
+H("c17_call_matchers", "c17_matchers::c17_call_matchers", ["C17"],
+  ["remove_assertions::AssertMatcher::matches", "remove_debug_profiling::should_remove_call"],
+  "call prefixes NAME, NAME.FIELD, NAME.x.FIELD, NAME['FIELD'], (NAME).FIELD with NAME in {assert, debug, other} and FIELD in {profilebegin, profileend, name}; `assert` / `debug` shadowed or not (all 4 combinations)",
+  mode="lean", timeout_s=900, mem_gb=16, replay="call_matchers",
+  stubs=["IdentifierTracker::is_identifier_used -> solver-chosen answer for `assert` and for `debug` (the scope tracker, a Vec<HashSet<String>>, is the environment of the per-call decision)"],
+  assumptions=["native replay runs the real rule end to end (darklua_core::process on in-memory resources) on `[local NAME = f] PREFIX(1)` and looks for the call in the output",
+               "what replaces a matched call (argument preservation, select handling) and inject_global_value are outside the claim"])
